@@ -221,6 +221,154 @@ PREFIXES = ['', '# TYPE a histogram\n', '# TYPE a gauge\na 1 1\n', '# TYPE a sum
             '# TYPE a info\n', '# TYPE a counter\n', '# TYPE a gaugehistogram\n', '# TYPE a unknown\n']
 
 
+# ---- structured edits of sample names and TYPE words (a name token is ONE token for omgen.mutations, so its
+# suffix is never cut off there): the sample keeps its line, only the suffix that ties it to its family changes
+SUFFIXES = ['', '_total', '_created', '_count', '_sum', '_bucket', '_gcount', '_gsum', '_info']
+TYPES = ['counter', 'gauge', 'summary', 'histogram', 'gaugehistogram', 'info', 'stateset', 'unknown', 'untyped']
+_BARE_HEAD = re.compile(r'^[A-Za-z_:][A-Za-z0-9_:]*')
+_QUOTED_HEAD = re.compile(r'^\{"((?:[^"\\\n]|\\.)*)"')
+_TYPE_LINE = re.compile(r'^(# TYPE (?:"(?:[^"\\\n]|\\.)*"|\S+) )(\S+)$')
+
+
+def _split_suffix(name):
+    for sfx in sorted(SUFFIXES, key=len, reverse=True):
+        if sfx and name.endswith(sfx) and len(name) > len(sfx):
+            return name[:-len(sfx)], sfx
+    return name, ''
+
+
+def name_edits(rng, text, limit):
+    """-> [(text', kind)]: one sample name with its suffix removed / exchanged / added, or one TYPE word exchanged"""
+    lines = text.split('\n')
+    sample_idx = [i for i, l in enumerate(lines) if l and not l.startswith('#')]
+    type_idx = [i for i, l in enumerate(lines) if _TYPE_LINE.match(l)]
+    out = []
+    for _ in range(limit):
+        if type_idx and (not sample_idx or rng.random() < 0.2):
+            i = rng.choice(type_idx)
+            m = _TYPE_LINE.match(lines[i])
+            new = m.group(1) + rng.choice([t for t in TYPES if t != m.group(2)])
+            kind = 'type-swap'
+        elif sample_idx:
+            i = rng.choice(sample_idx)
+            line = lines[i]
+            m = _QUOTED_HEAD.match(line)
+            if m:
+                a, b = m.start(1), m.end(1)
+            else:
+                m = _BARE_HEAD.match(line)
+                if not m:
+                    continue
+                a, b = m.start(), m.end()
+            base, sfx = _split_suffix(line[a:b])
+            r = rng.random()
+            if sfx and r < 0.45:
+                nsfx, kind = '', 'suffix-cut'
+            elif r < 0.9:
+                nsfx, kind = rng.choice([x for x in SUFFIXES if x != sfx]), 'suffix-swap'
+            else:
+                nsfx, kind = sfx + rng.choice(SUFFIXES[1:]), 'suffix-add'
+            new = line[:a] + base + nsfx + line[b:]
+        else:
+            break
+        out.append(('\n'.join(lines[:i] + [new] + lines[i + 1:]), kind))
+    return out
+
+
+_NUM_TOKEN = re.compile(r'(?<![\w.+-])[+-]?(?:[Ii]nf(?:inity)?|[Nn]a[Nn]|[0-9]+(?:\.[0-9]*)?(?:[eE][+-]?[0-9]+)?)(?![\w.])')
+INF_SPELLINGS = ['+Inf', 'inf', '+inf', 'Inf', 'Infinity', '+Infinity', 'INF', '1e999', '+INF', 'infinity']
+LE_SPELLINGS = INF_SPELLINGS + ['-Inf', 'NaN', 'nan', '1', '1.0', '1e0', '01', '+1', '1.', '0x1', ' 1', '1_0', '\u0661', '', '0.5',
+                                '5e-1', '.5', '0.50', '0', '0.0', '-0', '-0.0', '1e-400']
+
+
+def respellings(tok):
+    """other spellings of the number a token denotes (what a table keyed by the parsed number cannot tell apart)"""
+    try:
+        f = float(tok)
+    except ValueError:
+        return []
+    if f != f:
+        out = ['NaN', 'nan', 'NAN', '+nan', '-nan']
+    elif f in (float('inf'), float('-inf')):
+        out = [('-' if f < 0 else '') + x.lstrip('+') if f < 0 else x for x in INF_SPELLINGS]
+    elif f == int(f) and abs(f) < 1e15:
+        i = int(f)
+        sign, mag = ('-' if (i < 0 or tok.startswith('-')) else ''), abs(i)
+        out = ['%s%d' % (sign, mag), '%s%d.0' % (sign, mag), '%s%de0' % (sign, mag), '%s0%d' % (sign, mag), '%s%d.' % (sign, mag),
+               '%s%d.00' % (sign, mag), '%s%dE0' % (sign, mag)] + (['+%d' % mag, '+%d.0' % mag] if not sign else [])
+        if mag and mag % 10 == 0:
+            out.append('%s%de1' % (sign, mag // 10))
+    else:
+        out = [repr(f), repr(f) + '0', '%e' % f, '%.17e' % f, '0' + repr(f) if f > 0 else repr(f)] + (['+' + repr(f)] if f > 0 else [])
+    return [x for x in out if x != tok]
+
+
+def respell_edits(rng, text, limit):
+    """-> [(text', 'respell')]: one number token of a sample line (value, timestamp, le / quantile label value, exemplar)
+    written in another spelling of the same number"""
+    spots = []
+    pos = 0
+    for line in text.split('\n'):
+        if line and not line.startswith('#'):
+            spots += [(pos + m.start(), pos + m.end()) for m in _NUM_TOKEN.finditer(line)]
+        pos += len(line) + 1
+    out = []
+    for _ in range(limit):
+        if not spots:
+            break
+        a, b = rng.choice(spots)
+        alt = respellings(text[a:b])
+        if alt:
+            out.append((text[:a] + rng.choice(alt) + text[b:], 'respell'))
+    return out
+
+
+_QUOTED_NAME = re.compile(r'(?<=[{,])"((?:[^"\\\n]|\\.)*)"(?=[=,}])|(?<=^# (?:TYPE|HELP|UNIT) )"((?:[^"\\\n]|\\.)*)"(?= )', re.M)
+_BARE_LABEL = re.compile(r'(?<=[{,])([A-Za-z_][A-Za-z0-9_]*)(?==")')
+
+
+def quote_edits(rng, text, limit):
+    """-> [(text', 'quote-toggle')]: one quoted metric / label name token written without its quotes, or one bare label
+    name written quoted (the same name in its other token form)"""
+    out = []
+    for _ in range(limit):
+        spots = [(m.start(), m.end(), m.group(1) if m.group(1) is not None else m.group(2)) for m in _QUOTED_NAME.finditer(text)]
+        bare = [(m.start(), m.end(), '"' + m.group(1) + '"') for m in _BARE_LABEL.finditer(text)]
+        pick = spots if (spots and (not bare or rng.random() < 0.7)) else bare
+        if not pick:
+            break
+        a, b, new = rng.choice(pick)
+        out.append((text[:a] + new + text[b:], 'quote-toggle'))
+    return out
+
+
+def grid_docs():
+    """every family type x every sample-name suffix, one well-formed sample line each (both formats read them)"""
+    out = []
+    for t in TYPES:
+        for sfx in SUFFIXES:
+            for lab in ('', '{le="+Inf"}', '{a="b"}', '{quantile="0.5"}'):
+                out.append('# TYPE a %s\na%s%s 1\n# EOF\n' % (t, sfx, lab))
+    return out + spelling_docs()
+
+
+def spelling_table():
+    """-> [(family kind, spelling, document)]: histogram bounds, summary quantiles and gauge values in every spelling
+    of the special numbers; the first entry of every kind is the canonical '+Inf'"""
+    out = []
+    for sp in LE_SPELLINGS:
+        for t in ('histogram', 'gaugehistogram'):
+            out.append((t, sp, '# TYPE a %s\na_bucket{le="%s"} 1\n# EOF\n' % (t, sp)))
+            out.append((t + '2', sp, '# TYPE a %s\na_bucket{le="0.5"} 0\na_bucket{le="%s"} 1\n# EOF\n' % (t, sp)))
+        out.append(('summary', sp, '# TYPE a summary\na{quantile="%s"} 1\n# EOF\n' % sp))
+        out.append(('gauge', sp, '# TYPE a gauge\na %s\n# EOF\n' % (sp.strip() or '1')))
+    return out
+
+
+def spelling_docs():
+    return [d for _k, _sp, d in spelling_table()]
+
+
 def check_platform_facts():
     """\\d and \\w characters are never stripped by str.strip() (used by the totality theorem)."""
     bad = [c for c in range(0x110000) if not (0xD800 <= c < 0xE000)
@@ -240,6 +388,9 @@ def cases(ctx):
     # 1. literal regression documents (every escape found so far, with the fix and around it)
     for d in omgen.REGRESSION_DOCS:
         yield from emit(d, 'regression')
+    # 1b. every family type x every sample-name suffix
+    for d in grid_docs():
+        yield from emit(d, 'grid')
     # 2. exhaustive short strings over the special alphabet
     maxlen = 5 if ctx.thorough else 4
     for k in range(0, maxlen + 1):
@@ -256,6 +407,12 @@ def cases(ctx):
             yield from emit(omgen.render(omgen.repeat_exposures(rng, sdoc)), 'repeat')
         for mdoc, kind in omgen.mutations(rng, doc, single=ctx.n(18, 60), double=ctx.n(6, 30)):
             yield from emit(mdoc, 'mut:' + kind)
+        for mdoc, kind in (name_edits(rng, doc, ctx.n(6, 20)) + respell_edits(rng, doc, ctx.n(5, 16))
+                           + quote_edits(rng, doc, ctx.n(3, 10))):
+            yield from emit(mdoc, 'mut:' + kind)
+            if rng.random() < 0.25:
+                mdoc2, kind2 = omgen.mutate_once(rng, mdoc)
+                yield from emit(mdoc2, 'mut:' + kind + '+' + kind2)
         if i % 10 == 0:
             for off in omgen.truncation_offsets(rng, doc, ctx.n(40, 100000)):
                 yield from emit(doc[:off], 'trunc')
